@@ -1,4 +1,5 @@
 import PhysisModel.Base.Proto
+import PhysisModel.Base.HexFast
 import PhysisModel.Model.Sha1
 import PhysisModel.Model.Fiin
 import PhysisModel.Model.PatchList
@@ -49,7 +50,7 @@ def parseFile (s : String) : Option (Bytes × Bytes) :=
   match s.splitOn ":" with
   | [p, c] => do
     let p ← Bytes.ofHex p
-    let c ← Bytes.ofHexFast c
+    let c ← Bytes.ofHexBig c
     pure (p, c)
   | _ => none
 
@@ -122,7 +123,7 @@ def trivIf (b : Bool) : List String := if b then ["triv"] else []
 def handle (line : String) : String :=
   match fields line with
   | ["sha1", h] =>
-    match Bytes.ofHexFast h with
+    match Bytes.ofHexBig h with
     | some bs => answer "=" (Bytes.toHex (Spec.Sha1.sha1 bs)) [] (some (Bytes.toHex (Sha1.sha1 bs)))
     | none => bad
   | ["new", fs] =>
